@@ -34,7 +34,8 @@ EncViol(ev) ==
 \* what the serializer gives for the switch in force at the reconstruct call (C10: writers = encode and reconstruct)
 RecBViol(ev) ==
    LET n == ev.k + ev.m  legacy == LegacyOn(ev.legacy) IN
-   IF ev.rc # 0 THEN {"C03 reconstruct of a single missing fragment failed"}
+   IF Has(ev, "supsame") /\ ev.supsame # 1 THEN {"C03 supplied destination not returned unchanged (after the legacy switch changed)"}
+   ELSE IF ev.rc # 0 THEN {"C03 reconstruct of a single missing fragment failed"}
    ELSE IF \E i \in 0..(n-1) : Tup(ev.frags[i+1]) # Fragment(ev.be, ev.k, ev.m, ev.hd, ev.ct, Tup(ev.data), i, Tup(ev.libver), Tup(ev.bever), legacy)
         THEN {"C10 reconstructed fragment differs from the serializer under the switch in force at the call"} ELSE {}
 SizeViol(ev) ==
@@ -72,6 +73,8 @@ HdrViol(ev) ==
          THEN {IF host THEN "C10 payload checksum mismatch not reported exactly" ELSE "C11 opposite-endian payload mismatch detection differs"} ELSE {})
    \cup (IF (~acc \/ ~host) /\ Has(ev, "rs0") /\ ((ev.rs0 # 999 /\ ev.rs0 # EBADHEADER) \/ (ev.rsl # 999 /\ ev.rsl # EBADHEADER))
          THEN {"C09 reconstruct with a supplied destination must still refuse a bad header anywhere in the list"} ELSE {})
+   \cup (IF (~acc \/ ~host) /\ Has(ev, "rfew1") /\ (ev.rfew1 # EBADHEADER \/ ev.rfew2 # EBADHEADER)
+         THEN {"C09 reconstruct with too few fragments must still refuse a bad header with the bad-header error"} ELSE {})
    \cup (IF acc /\ host /\ geom /\ Has(ev, "rs0") /\ ev.rs0 # 999 /\ ev.be # 0 /\ (ev.rs0 # 0 \/ ev.rs0same # 1 \/ ev.rsl # 0 \/ ev.rslsame # 1)
          THEN {"C03 supplied destination not returned unchanged"} ELSE {})
    \cup (IF ~acc \/ ~host THEN (IF (ev.drc # 999 /\ ev.drc # EBADHEADER) \/ (ev.rrc # 999 /\ ev.rrc # EBADHEADER)
